@@ -65,6 +65,17 @@ def return_leaves(n, pre=()):
             yield from _rets_in(st, acc)
             acc = acc + [st]
         if n.get("expr") is not None:
+            # `let r = <expr>; ..; r`: the leaves of <expr> (what runs between the let and the end of the block runs on all of them)
+            t = strip(n["expr"])
+            r = path_res(t) if t.get("k") == "Path" else None
+            if r and r.get("r") == "local":
+                for i, st in enumerate(stmts):
+                    p_ = st.get("pat", {}) if st.get("k") == "SLet" else {}
+                    if p_.get("k") == "PBinding" and p_.get("id") == r.get("id") and "init" in st and "els" not in st and \
+                            not str(p_.get("mode", "")).rstrip(")").endswith("Mut"):
+                        for leaf, pre_ in return_leaves(st["init"], tuple(list(pre) + stmts[:i])):
+                            yield leaf, list(pre_) + stmts[i + 1:]
+                        return
             yield from return_leaves(n["expr"], tuple(acc))
         return
     if k == "If":
@@ -371,9 +382,18 @@ def rule_nul(X, R, rule="R20-nul"):
     # as_c_str: null for the empty string
     ha = X.hir("cstring::CString::as_c_str")
     if ha:
-        t = fn_result(ha)
-        ok = t.get("k") == "If" and any(c["m"] == "is_empty" for c in exprs(t["cond"], "MethodCall")) and \
-            any(norm(c.get("callee", "")).endswith("ptr::null") for c in exprs(t["then"], "Call"))
+        Sa = sem.Sem(X, ha)
+
+        def empty_pol(x):
+            for a_, pol in sem.literals(x.pc)[0]:
+                n_ = sem.peel(a_.node) if a_.kind == "call" and a_.node is not None else {}
+                if n_.get("k") == "MethodCall" and n_["m"] == "is_empty" and sem.param_index(Sa, n_["recv"], a_.frame) == 0:
+                    return pol
+            return None
+        leaves = Sa.result_leaves()
+        nulls = [x for x in leaves if any(norm(c.get("callee", "")).endswith("ptr::null") for c in exprs(x.node, "Call"))]
+        ptrs = [x for x in leaves if any(c["m"] == "as_ptr" for c in exprs(x.node, "MethodCall"))]
+        ok = len(leaves) == 2 and len(nulls) == 1 and len(ptrs) == 1 and empty_pol(nulls[0]) is True and empty_pol(ptrs[0]) is False
         R.check(ok, rule, "cstring::CString::as_c_str", "empty string -> NULL pointer", where=ha["span"])
     # writers of the byte vector inside the module
     MUT = {"pop", "push", "extend", "extend_from_slice", "clear", "iter_mut", "insert", "remove", "truncate", "resize",
